@@ -452,11 +452,86 @@ class SymSeq(Sym):
         return SymSeq(out, self.kind)
 
     def decode(self, enc="utf-8", errors="strict"):
+        e = enc.lower().replace("-", "").replace("_", "")
+        if e in ("utf8", "ascii") and errors == "strict":
+            return self._decode_utf8(e == "ascii")
         if any(isinstance(c, Piece) for c in self.items):
             raise Unsupported("decode() of abstract piece")
-        if enc.lower().replace("-", "") in ("latin1", "iso88591"):
+        if e in ("latin1", "iso88591"):
             return SymStr([SymChar(c) if isinstance(c, SymInt) else chr(c) for c in self.items])
         raise Unsupported("decode(%s) of symbolic bytes" % enc)
+
+    def _decode_utf8(self, ascii_only):
+        """strict UTF-8 (or ASCII) decoding, deciding every byte class through the explorer.  An abstract piece is only looked at through
+        its first byte: an invalid start byte raises (as CPython does); anything else about it is outside the model."""
+        C = core.CTX
+
+        def dec(t):
+            return t if isinstance(t, bool) else C.branch(t)
+        out = []
+        items = list(self.items)
+        i = 0
+        while i < len(items):
+            it = items[i]
+            if isinstance(it, Piece):
+                if dec(S(it.ln <= 0)):
+                    i += 1
+                    continue
+                if isinstance(it, Fill):
+                    n = S(it.ln)
+                    if z3.is_int_value(n) and n.as_long() <= 64:
+                        items[i:i + 1] = [it.value] * n.as_long()
+                        continue
+                    raise Unsupported("decode() of a long fill")
+                b0 = byte_of(it.base, it.off)
+                if dec(S(b0.t >= 0x80)):
+                    if ascii_only or dec(S(z3.Or(b0.t < 0xC2, b0.t > 0xF4))):
+                        raise UnicodeDecodeError("ascii" if ascii_only else "utf-8", b"\xff", 0, 1, "invalid start byte")
+                    raise Unsupported("decode() of an abstract piece that starts with a multi-byte sequence")
+                raise Unsupported("decode() of an abstract piece (only its first byte is modelled)")
+            b = it
+            if isinstance(b, int):
+                if b < 0x80:
+                    out.append(chr(b))
+                    i += 1
+                    continue
+            elif not dec(S(toint(b) >= 0x80)):
+                out.append(SymChar(b))
+                i += 1
+                continue
+            if ascii_only:
+                raise UnicodeDecodeError("ascii", b"\xff", 0, 1, "ordinal not in range(128)")
+            t = toint(b)
+            if dec(S(z3.Or(t < 0xC2, t > 0xF4))):
+                raise UnicodeDecodeError("utf-8", b"\xff", 0, 1, "invalid start byte")
+            need = 1 if dec(S(t < 0xE0)) else 2 if dec(S(t < 0xF0)) else 3
+            conts = []
+            for k in range(1, need + 1):
+                if i + k >= len(items) or isinstance(items[i + k], Piece):
+                    if i + k >= len(items):
+                        raise UnicodeDecodeError("utf-8", b"\xff", 0, 1, "unexpected end of data")
+                    raise Unsupported("decode(): continuation byte inside an abstract piece")
+                c = toint(items[i + k])
+                lo, hi = 0x80, 0xBF
+                if k == 1:
+                    # second-byte ranges exclude overlong forms, surrogates and values above U+10FFFF
+                    if need == 2 and dec(S(t == 0xE0)):
+                        lo = 0xA0
+                    elif need == 2 and dec(S(t == 0xED)):
+                        hi = 0x9F
+                    elif need == 3 and dec(S(t == 0xF0)):
+                        lo = 0x90
+                    elif need == 3 and dec(S(t == 0xF4)):
+                        hi = 0x8F
+                if dec(S(z3.Or(c < lo, c > hi))):
+                    raise UnicodeDecodeError("utf-8", b"\xff", 0, 1, "invalid continuation byte")
+                conts.append(c)
+            cp = t - (0xC0 if need == 1 else 0xE0 if need == 2 else 0xF0)
+            for c in conts:
+                cp = cp * 64 + (c - 0x80)
+            out.append(SymChar(SymInt(S(cp), ub=0x110000)))
+            i += need + 1
+        return SymStr(out)
 
     def startswith(self, p):
         p = SymSeq(p)
